@@ -384,7 +384,7 @@ def check(t: List[int]) -> bool:
 def groups(tier):
     """Every count forks (B+1) ways (it is the length of an object list), so a configuration is shrunk - fewer sizes per
     class, then counts in [0,1] - until (B+1)^entries fits the budget.  What ran is listed in the evidence."""
-    budget = 400 if tier == "quick" else 7000
+    budget = 400 if tier == "quick" else 2500
     gs = [{"name": "verification-rule-any-request-order", "fn": "check_ver", "shape": {"kind": "ver", "B": 2},
            "cond_timeout": 600.0, "path_timeout": 60.0, "weight": 125}]
     for c in c09.catalogue("quick"):
@@ -394,15 +394,21 @@ def groups(tier):
             if not forms:
                 continue
             c["forms"] = forms
-        c["B"] = 2
-        c["W"] = min(c["W"], 2)
-        for W, Bv in ((c["W"], 2), (1, 2), (c["W"], 1), (1, 1)):
+        W0 = min(c["W"], 2)
+        chosen = []
+        for W, Bv in ((W0, 2), (1, 2), (W0, 1), (1, 1)):
             c["W"], c["B"] = W, Bv
             c09.on_shape(c)
             if (Bv + 1) ** c09.LEN <= budget:
-                break
-        gs.append({"name": "%s-W%dB%d" % (c["name"], c["W"], c["B"]), "fn": "check", "shape": c,
-                   "cond_timeout": 900.0 if tier == "quick" else 2400.0, "path_timeout": 120.0, "weight": (c["B"] + 1) ** c09.LEN})
+                chosen.append((W, Bv, c09.LEN))
+                # thorough: when the full setting does not fit, run both reduced settings (fewer sizes / smaller counts)
+                if tier == "quick" or (W, Bv) in ((W0, 2), (W0, 1), (1, 1)):
+                    break
+        for W, Bv, ln in chosen:
+            d = dict(c)
+            d["W"], d["B"] = W, Bv
+            gs.append({"name": "%s-W%dB%d" % (c["name"], W, Bv), "fn": "check", "shape": d,
+                       "cond_timeout": 900.0 if tier == "quick" else 2400.0, "path_timeout": 120.0, "weight": (Bv + 1) ** ln})
     # (c) whole specifications
     opts = ["plain", "inferral", "symmetry", "factory2", "finite", "k", "kk", "ku", "two"]
     if tier == "thorough":
